@@ -186,6 +186,9 @@ pub mod op;
 #[cfg(test)]
 pub mod proptest_strategy;
 pub mod repr;
+#[cfg(graaf_verif)]
+#[doc(hidden)]
+pub mod verif_rt;
 
 pub use repr::{
     AdjacencyList,
